@@ -197,6 +197,11 @@ func (ns *Namespace) UnmarshalYAML(value *yaml.Node) error {
 		nameNode := value.Content[i]
 		typeNode := value.Content[i+1]
 
+		if nameNode.Tag == "!!null" {
+			// a null key is not passed to DefinitionMeta.UnmarshalYAML
+			return parseError(nameNode, "the name of a type is required to be a string")
+		}
+
 		meta := &DefinitionMeta{}
 		if err := nameNode.DecodeWithOptions(&meta, yaml.DecodeOptions{KnownFields: true}); err != nil {
 			return err
